@@ -619,6 +619,10 @@ func (s *senderWorld) onSubmit(sub *Submission) {
 			return
 		}
 		// ---- C19: the wire message carries the on-chain global index ----
+		if ibe.GlobalIndex == nil || len(ibe.GlobalIndex.Value) != 32 {
+			s.fail("global-index", "c19/wire-global-index-missing", "imported exit %d carries no 32-byte global index on the wire (%d bytes); the claim event has %s", i, len(ibe.GlobalIndex.GetValue()), cl.GlobalIndex)
+			return
+		}
 		if wireGlobalIndex(ibe).Cmp(canonGI(cl.GlobalIndex)) != 0 {
 			s.fail("global-index", "c19/wire-global-index", "imported exit %d carries global index %s, the claim event has %s", i, wireGlobalIndex(ibe), cl.GlobalIndex)
 			return
